@@ -416,45 +416,62 @@ def _return_source(m, h, line):
 
 # ------------------------------------------------------------------ RF12 (c): named object
 def named_object(ctx, props):
-    """COSdoCheck: on every path that selects a server for the current frame the multiplexer
-    fields Idx/Sub are assigned from this frame."""
+    """COSdoCheck: on every path that selects a server for the current frame the per-request fields
+    are refreshed: multiplexer Idx/Sub from this frame, frame pointer, application abort code cleared."""
     m = ctx.m
     m.need('COSdoCheck')
-    g = m.cfg('COSdoCheck')
-    fn = m.funcs['COSdoCheck']
+    _per_request_refresh(ctx, props, 'COSdoCheck', 'CO_SDO', [
+        ('Idx', ('CO_SDO', 'Idx'), 'frame', 'latched-mux:Idx',
+         'a request that arrives while a transfer is open is processed with the OLD multiplexer'),
+        ('Sub', ('CO_SDO', 'Sub'), 'frame', 'latched-mux:Sub',
+         'a request that arrives while a transfer is open is processed with the OLD multiplexer'),
+        ('Abort', ('CO_SDO', 'Abort'), 'zero', 'stale-user-abort',
+         'an application abort code left by an earlier request is reported for this one'),
+        ('Frm', ('CO_SDO', 'Frm'), 'param', 'stale-frame',
+         'the handlers would read / answer a previous frame'),
+    ], 'RF12c')
+
+
+def _per_request_refresh(ctx, props, fname, rectag, fields, rule):
+    m = ctx.m
+    g = m.cfg(fname)
+    fn = m.funcs[fname]
+    pids = set(p[3] for p in fn.params)
     sel = []
-    st_idx = set()
-    st_sub = set()
-    rets = set()
+    stores = dict((f[0], set()) for f in fields)
     for node in g.nodes:
         if node.x is None or node.id not in g.reachable:
             continue
         for (p, rhs, n) in flow.assigned_paths(node.x):
             l = strip(n.kids[0]) if n.k != 'var' else None
-            if l is not None and l.k == 'mem' and l.field == ('CO_SDO', 'Idx') and _reads_frame(rhs):
-                st_idx.add(node.id)
-            if l is not None and l.k == 'mem' and l.field == ('CO_SDO', 'Sub') and _reads_frame(rhs):
-                st_sub.add(node.id)
+            for (nm, fld, kind, key, why) in fields:
+                if l is not None and l.k == 'mem' and l.field == fld and rhs is not None:
+                    r = strip(rhs)
+                    if kind == 'frame' and _reads_frame(rhs):
+                        stores[nm].add(node.id)
+                    elif kind == 'zero' and const_eval(rhs, m) == 0:
+                        stores[nm].add(node.id)
+                    elif kind == 'param' and r.k == 'ref' and r.ref in pids:
+                        stores[nm].add(node.id)
             if rhs is not None and p is not None and len(p) == 1:
                 r = strip(rhs)
-                if r.k == 'un' and r.op == '&' and (n.cty or n.ty or '').find('CO_SDO') >= 0:
+                if r.k == 'un' and r.op == '&' and (n.cty or n.ty or '').find(rectag) >= 0:
                     sel.append(node.id)
-    ctx.inst('RF12c.select-sites', len(sel))
-    ctx.require_min(props, 'RF12c', len(sel), 1, 'server selection sites in COSdoCheck')
-    for s in sel:
-        for (what, stores) in (('Idx', st_idx), ('Sub', st_sub)):
-            # any path entry -> s avoiding the stores?
-            reach = flow.reach_from(g, g.entry.id, avoid=stores, include_start=True)
-            site = '%s: %s (multiplexer %s)' % (m.loc('COSdoCheck', g.nodes[s].line), show(g.nodes[s].x), what)
-            if s in reach:
-                pth = flow.path_between(g, g.entry.id, s, avoid=stores)
-                ctx.ob(props, 'RF12c', 'COSdoCheck', site, None)
-                ctx.find(props, 'RF12c', 'COSdoCheck', 'latched-mux:' + what, m.loc('COSdoCheck', g.nodes[s].line),
-                         'a path selects the server for the received frame without taking %s from that frame '
-                         '(lines %s): a request that arrives while a transfer is open is processed with the OLD '
-                         'multiplexer' % (what, flow.lines_of_path(g, pth)), witness=flow.lines_of_path(g, pth))
+    ctx.inst(rule + '.select-sites.' + fname, len(sel))
+    ctx.require_min(props, rule, len(sel), 1, 'selection sites in ' + fname)
+    for s_ in sel:
+        for (nm, fld, kind, key, why) in fields:
+            st = stores[nm]
+            reach = flow.reach_from(g, g.entry.id, avoid=st, include_start=True)
+            site = '%s: %s (per-request field %s)' % (m.loc(fname, g.nodes[s_].line), show(g.nodes[s_].x), nm)
+            if s_ in reach:
+                pth = flow.path_between(g, g.entry.id, s_, avoid=st)
+                ctx.ob(props, rule, fname, site, None)
+                ctx.find(props, rule, fname, key, m.loc(fname, g.nodes[s_].line),
+                         'a path selects the record for the received frame without refreshing %s.%s (lines %s): %s'
+                         % (fld[0], fld[1], flow.lines_of_path(g, pth), why), witness=flow.lines_of_path(g, pth))
             else:
-                ctx.ob(props, 'RF12c', 'COSdoCheck', site, 'every path stores %s from the current frame first' % what)
+                ctx.ob(props, rule, fname, site, 'every selecting path refreshes %s first' % nm)
 
 
 def _reads_frame(rhs):
@@ -599,6 +616,88 @@ def _is_param_check_return(m, fname, node):
     return True
 
 
+def abort_closes_state(ctx, props, table):
+    """RF12d: a path that closes the transfer (abort composed / Obj := 0) while a block transfer is
+    recorded in Blk.State must also return the dispatcher state to idle - otherwise the next request is
+    decoded as part of a transfer that no longer exists."""
+    m = ctx.m
+    IDLE = m.enum('BLK_IDLE')
+    # states the dispatcher decodes exactly like BLK_IDLE (no block transfer recorded)
+    idle_like = set()
+    for st in BLK_STATES:
+        if all(table.get((st, c)) == table.get(('BLK_IDLE', c)) for c in range(256)):
+            idle_like.add(m.enum(st))
+    entry_states = {}
+    for (st, cmd), routes in table.items():
+        for r in routes:
+            for el in r:
+                if isinstance(el, str) and el in HANDLERS:
+                    entry_states.setdefault(el, set()).add(st)
+    # nested handlers inherit the states of their callers
+    ch = True
+    while ch:
+        ch = False
+        for h in HANDLERS:
+            for (caller, call) in m.callers.get(h, []):
+                if caller in entry_states:
+                    b = len(entry_states.setdefault(h, set()))
+                    entry_states[h] |= entry_states[caller]
+                    if len(entry_states[h]) != b:
+                        ch = True
+    # the dispatcher itself
+    entry_states['COSdoResponse'] = set(BLK_STATES)
+    n = 0
+    for h in sorted(entry_states):
+        if h not in m.funcs:
+            continue
+        pe = PEval(m, h)
+        pe.record_sets = False
+        pe.store_filter = lambda key, fld: fld in (('CO_SDO', 'Obj'), ('CO_SDO_BLK', 'State'))
+        for st in sorted(entry_states[h]):
+            sv = m.enum(st)
+            trs = pe.run({'srv->Blk.State': sv})
+            seen = set()
+            for t in trs:
+                n += 1
+                state = sv
+                closed = False
+                line = None
+                for e in t.events:
+                    if e[0] == 'call' and e[1] == 'COSdoAbortReq':
+                        state = IDLE
+                        closed = True
+                    elif e[0] == 'call' and e[1] == 'COSdoAbort':
+                        closed = True
+                        line = e[3]
+                    elif e[0] == 'call' and e[1] in HANDLERS:
+                        # nested handler: judged on its own
+                        state = None
+                        closed = False
+                    elif e[0] == 'store' and e[4] == ('CO_SDO', 'Obj') and e[2] == 0:
+                        closed = True
+                        line = e[3]
+                    elif e[0] == 'store' and e[4] == ('CO_SDO', 'Obj') and e[2] != 0:
+                        closed = False
+                    elif e[0] == 'store' and e[4] == ('CO_SDO_BLK', 'State'):
+                        state = e[2]
+                if closed and state is not None and state not in idle_like:
+                    k = (h, st, line)
+                    if k in seen:
+                        continue
+                    seen.add(k)
+                    ctx.ob(props, 'RF12d', h, 'entered in %s, transfer closed at line %s' % (st, line), None)
+                    ctx.find(props, 'RF12d', h, 'closed-but-not-idle', m.loc(h, line or m.funcs[h].line),
+                             'a path closes the transfer (abort / Obj := 0 at line %s) but leaves Blk.State = %s: the '
+                             'next request is decoded as part of a block transfer that no longer exists'
+                             % (line, [s2 for s2 in BLK_STATES if m.enum(s2) == state]))
+                elif closed:
+                    k = (h, st, 'ok')
+                    if k not in seen:
+                        seen.add(k)
+                        ctx.ob(props, 'RF12d', h, 'entered in %s, transfer closed' % st, 'dispatcher state idle on that path')
+    ctx.inst('RF12d.traces', n)
+
+
 def reset_reaches_init(ctx, props):
     m = ctx.m
     m.need('CONmtReset', 'COSdoInit', 'COSdoReset')
@@ -627,5 +726,6 @@ def run(ctx):
     named_object(ctx, ['C04'])
     continuation_guard(ctx, ['C05', 'C01'], table)
     dispatcher_state_reset(ctx, ['C05'])
+    abort_closes_state(ctx, ['C05', 'C04'], table)
     reset_reaches_init(ctx, ['C05'])
     return table
